@@ -159,6 +159,7 @@ type c19Check struct {
 	notObs    map[string]int // reasons an observer could not observe
 	disagree  map[string]int // violations by key and way of observation
 	classes   map[string]int
+	existing  map[string]int // deliveries over a pre-existing destination: classes and features
 	maxCount  uint64
 	seq       int64
 	watchdogs int64
@@ -265,6 +266,9 @@ func (c *c19Check) sidecarDirect(p c19Pair, group string, n uint32, dir string) 
 
 const c19ItemID = "c19c19c19c19c19f"
 
+// destination classes of the deliveries over a pre-existing destination (stage geometry)
+var c19ExistingDest = []string{"same-length", "longer", "shorter", "older-version", "empty-file"}
+
 type c19MuxResult struct {
 	wire        *transfer.FileResumeInfo
 	done        *transfer.FileDone
@@ -280,8 +284,25 @@ type c19MuxResult struct {
 // encoders: header (one file), DataStreams, FileBegin [, ResumeRequest]; reads the
 // FileResumeInfo it answers. With content != nil it then delivers exactly the chunks
 // the sender helpers describe (highest index first), FileEnd and End.
-func (c *c19Check) muxRecv(p c19Pair, legacy bool, content []byte, dir string) (res c19MuxResult) {
+// ex != nil: the output path holds ex.prefill before the receiver starts and the chunks are
+// delivered in the order ex.order (a permutation of the sender's indices).
+type c19Existing struct {
+	sub     string
+	prefill []byte
+	order   []uint32
+}
+
+func (c *c19Check) muxRecv(p c19Pair, legacy bool, content []byte, dir string, ex *c19Existing) (res c19MuxResult) {
 	out := filepath.Join(dir, map[bool]string{true: "outl", false: "outm"}[legacy])
+	if ex != nil {
+		out = filepath.Join(dir, ex.sub)
+		if ex.prefill != nil {
+			if err := c19WriteFile(filepath.Join(out, "f"), ex.prefill); err != nil {
+				res.fileWhy = "cannot write the pre-existing destination"
+				return res
+			}
+		}
+	}
 	ctx, cancel := context.WithCancel(context.Background())
 	defer cancel()
 	ctrlA, ctrlB := c19PipePair()
@@ -392,7 +413,16 @@ func (c *c19Check) muxRecv(p c19Pair, legacy bool, content []byte, dir string) (
 	// deliver the sender's chunks, highest index first
 	n := transfer.VerifC19ChunkTotal(p.Size, p.CS)
 	var frames bytes.Buffer
+	order := make([]int64, 0, n)
 	for i := int64(n) - 1; i >= 0; i-- {
+		order = append(order, i)
+	}
+	if ex != nil && len(ex.order) == int(n) {
+		for k, v := range ex.order {
+			order[k] = int64(v)
+		}
+	}
+	for _, i := range order {
 		l := transfer.VerifC19ChunkSizeForIndex(p.Size, p.CS, uint32(i))
 		off := i * int64(p.CS)
 		if l == 0 || off+int64(l) > int64(len(content)) {
@@ -436,10 +466,121 @@ func (c *c19Check) muxRecv(p c19Pair, legacy bool, content []byte, dir string) (
 		res.fileWhy = "output file unreadable: " + err.Error()
 	case !bytes.Equal(got, content):
 		res.fileWhy = fmt.Sprintf("output file differs from the source (%d vs %d bytes)", len(got), len(content))
+		if ex != nil {
+			kind, detail := c19DescribeDiff(got, content, c19Prior(ex.prefill, ex.prefill != nil, p.Size), p.CS)
+			res.fileWhy += fmt.Sprintf(" [%s: %v]", kind, detail)
+		}
 	default:
 		res.fileOK = true
 	}
 	return res
+}
+
+// muxExisting is the delivery observation of muxObserve over a destination that exists already:
+// content of class cc, destination of class dc (every byte differs from the source byte at its
+// offset), the sender's chunks delivered in a seeded order. After FileDone{OK} the file must be
+// the source: the receiver's writes cover [0,size) whatever the bytes are and whatever was there.
+func (c *c19Check) muxExisting(p c19Pair, group string, n uint32, dir string, cc, dc string, seed uint64) {
+	if atomic.LoadInt64(&c.watchdogs) > 8 {
+		c.count(c.notObs, "mux-recv-existing: skipped after more than 8 watchdog hits in this run")
+		return
+	}
+	r := vk.NewRng(seed)
+	sp := c19FileSpec{Content: cc, Align: p.CS, Dest: dc, Seed: r.U64()}
+	sp.DestLen = c19PickDestLen(r, dc, p.Size, p.CS)
+	content := c19MakeContent(cc, "f", p.Size, p.CS, sp.Seed)
+	prefill, present := c19MakeDest(sp, content)
+	if !present {
+		prefill = nil
+	}
+	order := make([]uint32, n)
+	for i := range order {
+		order[i] = uint32(i)
+	}
+	orderName := "ascending"
+	if r.Bool() {
+		orderName = "shuffled"
+		for i := len(order) - 1; i > 0; i-- {
+			j := r.Intn(i + 1)
+			order[i], order[j] = order[j], order[i]
+		}
+	}
+	res := c.muxRecv(p, false, content, dir, &c19Existing{sub: "outx", prefill: prefill, order: order})
+	transfer.VerifC19ForgetSidecars()
+	observer := "mux-recv-delivery:content-" + cc + ":destination-" + dc
+	detail := map[string]any{"content_class": cc, "destination_class": dc, "destination_length_before": len(prefill), "delivery_order": orderName, "how": "delivery over a pre-existing destination"}
+	switch {
+	case res.wire == nil || (res.done == nil && (res.fileWhy != "" || res.timedOut)):
+		why := "no FileResumeInfo / no FileDone"
+		if res.timedOut {
+			why = "watchdog"
+			c.R.Inconcl(fmt.Sprintf("mux-recv %s over an existing destination: watchdog", p))
+		}
+		c.count(c.notObs, "mux-recv-existing: "+why)
+		return
+	case res.done == nil:
+		c.violate(p, group, observer, fmt.Sprintf("receiver ended (%v) without FileDone after exactly the sender's %d chunks were delivered (%s content, destination %s)", res.recvErr, n, cc, dc), detail)
+	case !res.done.OK:
+		c.violate(p, group, observer, fmt.Sprintf("receiver refused the sender's %d chunks: FileDone{OK:false, %q} (%s content, destination %s)", n, res.done.ErrMsg, cc, dc), detail)
+	case !res.fileOK:
+		c.violate(p, group, observer, fmt.Sprintf("after FileDone{OK:true} over a destination that existed before (%s, %d bytes; %s content): %s", dc, len(prefill), cc, res.fileWhy), detail)
+	}
+	c.count(c.obs, "mux-recv_delivery_existing_destination")
+	c.count(c.existing, "content-"+cc)
+	c.count(c.existing, "destination-"+dc)
+	c.count(c.existing, "order-"+orderName)
+	f := c19Analyse(content, c19Prior(prefill, prefill != nil, p.Size), p.CS)
+	c.mu.Lock()
+	f.addTo(func(k string, v int) { c.existing[k] += v }, "in-geometry/")
+	c.mu.Unlock()
+}
+
+// legacyExisting: the legacy chunk pipeline with content of class cc into a destination path
+// that holds sentinel bytes already.
+func (c *c19Check) legacyExisting(p c19Pair, group string, dir string, cc, dc string, seed uint64) {
+	r := vk.NewRng(seed ^ 0x1e9ac1)
+	sp := c19FileSpec{Content: cc, Align: p.CS, Dest: dc, Seed: r.U64()}
+	sp.DestLen = c19PickDestLen(r, dc, p.Size, p.CS)
+	content := c19MakeContent(cc, "f", p.Size, p.CS, sp.Seed)
+	prefill, present := c19MakeDest(sp, content)
+	src, dst := filepath.Join(dir, "srcx"), filepath.Join(dir, "dstx")
+	if os.WriteFile(src, content, 0644) != nil || (present && os.WriteFile(dst, prefill, 0644) != nil) {
+		c.count(c.notObs, "legacy-existing: cannot write files")
+		return
+	}
+	ctx := context.Background()
+	wire := &c19Buf{}
+	observer := "legacy-delivery:content-" + cc + ":destination-" + dc
+	detail := map[string]any{"content_class": cc, "destination_class": dc, "destination_length_before": len(prefill), "how": "legacy pipeline over a pre-existing destination"}
+	if _, err := transfer.VerifC19LegacySendChunks(ctx, wire, "f", src, p.Size, p.CS); err != nil {
+		c.violate(p, group, observer, fmt.Sprintf("sendFileChunksWindowed failed on a readable %d-byte file of %s content: %v", p.Size, cc, err), detail)
+		return
+	}
+	chunks, _, err := parseLegacy(wire.buf)
+	if err == nil {
+		var off int64
+		for _, ch := range chunks {
+			if int64(ch.idx)*int64(p.CS) != off || off+int64(ch.n) > p.Size || !bytes.Equal(wire.buf[ch.off:ch.off+int(ch.n)], content[off:off+int64(ch.n)]) {
+				err = fmt.Errorf("record of chunk %d (length %d) is not the file's bytes at %d", ch.idx, ch.n, off)
+				break
+			}
+			off += int64(ch.n)
+		}
+		if err == nil && off != p.Size {
+			err = fmt.Errorf("chunk records sum to %d bytes", off)
+		}
+	}
+	if err != nil {
+		c.violate(p, group, observer, fmt.Sprintf("legacy sender, %s content, size %d, chunk size %d: the records on the wire do not tile the file: %v", cc, p.Size, p.CS, err), detail)
+		return
+	}
+	_, rerr := transfer.VerifC19LegacyRecvChunks(ctx, &c19Buf{buf: wire.buf}, "f", dst, uint64(p.Size), p.CS, nil)
+	got, _ := os.ReadFile(dst)
+	c.count(c.obs, "legacy_roundtrip_existing_destination")
+	if rerr != nil || !bytes.Equal(got, content) {
+		kind, dd := c19DescribeDiff(got, content, c19Prior(prefill, present, p.Size), p.CS)
+		c.violate(p, group, observer, fmt.Sprintf("receiveFileChunksWindowed over a destination that existed before (%s, %d bytes; %s content) does not reproduce the file (err %v; %s: %v)", dc, len(prefill), cc, rerr, kind, dd), detail)
+	}
 }
 
 func (c *c19Check) muxObserve(p c19Pair, group string, n uint32, content []byte, dir string, legacy bool) {
@@ -451,7 +592,7 @@ func (c *c19Check) muxObserve(p c19Pair, group string, n uint32, content []byte,
 		c.count(c.notObs, name+": skipped after more than 8 watchdog hits in this run")
 		return
 	}
-	res := c.muxRecv(p, legacy, content, dir)
+	res := c.muxRecv(p, legacy, content, dir, nil)
 	transfer.VerifC19ForgetSidecars()
 	if res.wire == nil {
 		why := "no FileResumeInfo"
@@ -725,7 +866,7 @@ func runC19(e *Env) {
 		defer os.RemoveAll(d)
 	}
 	R.SetExtra("work_dir", workFS)
-	c := &c19Check{R: R, work: work, obs: map[string]int{}, notObs: map[string]int{}, disagree: map[string]int{}, classes: map[string]int{}}
+	c := &c19Check{R: R, work: work, obs: map[string]int{}, notObs: map[string]int{}, disagree: map[string]int{}, classes: map[string]int{}, existing: map[string]int{}}
 	note := func(p c19Pair, n uint32) {
 		c.mu.Lock()
 		c.classes[p.class()]++
@@ -757,6 +898,14 @@ func runC19(e *Env) {
 		c.legacy(p, "small-domain", n, content, dir, sc)
 		c.muxObserve(p, "small-domain", n, content, dir, false)
 		c.muxObserve(p, "small-domain", n, nil, dir, true)
+		// content class x destination class: both lists are walked with co-prime strides over the
+		// pair index, so every (size, cs) neighbourhood meets every combination
+		// (the starting point depends on the seed, so another seed gives a pair another combination)
+		j := i + int(base%uint64(len(c19ContentClasses)*len(c19ExistingDest)))
+		cc := c19ContentClasses[j%len(c19ContentClasses)]
+		dc := c19ExistingDest[(j/len(c19ContentClasses)+j)%len(c19ExistingDest)]
+		c.muxExisting(p, "small-domain", n, dir, cc, dc, base^vk.Mix(uint64(i)+0xe1))
+		c.legacyExisting(p, "small-domain", dir, cc, dc, base^vk.Mix(uint64(i)+0xe2))
 		atomic.AddInt64(&smallDone, 1)
 		if i < 3 || i == 64*7+3 {
 			R.Sample(map[string]any{"group": "small-domain", "size": p.Size, "chunk_size": p.CS, "sender_total": n, "class": p.class(),
@@ -867,7 +1016,19 @@ func runC19(e *Env) {
 	R.SetExtra("boundary_pairs", bndList)
 	R.SetExtra("not_covered", "receivers are not observed for counts above 2^20 (FileResumeInfo carries the whole bitmap); the legacy pipeline is observed on the small domain only (needs real files of that size); for counts above 65536 (random: 4096) chunkSizeForIndex is evaluated at the first/last 32 and 64 random indices, the sum then follows algebraically")
 
+	R.SetExtra("deliveries_over_a_pre_existing_destination", c.existing)
 	R.Require(int(smallDone) == len(small), "small domain not enumerated completely")
+	R.Require(c.obs["mux-recv_delivery_existing_destination"] >= len(small)-64, fmt.Sprintf("only %d deliveries over a pre-existing destination reached a verdict", c.obs["mux-recv_delivery_existing_destination"]))
+	R.Require(c.obs["legacy_roundtrip_existing_destination"] >= len(small)-64, fmt.Sprintf("only %d legacy round trips over a pre-existing destination reached a verdict", c.obs["legacy_roundtrip_existing_destination"]))
+	for _, cc := range c19ContentClasses {
+		R.Require(c.existing["content-"+cc] >= 1000, "content class "+cc+" delivered fewer than 1000 times over a pre-existing destination")
+	}
+	for _, dc := range c19ExistingDest {
+		R.Require(c.existing["destination-"+dc] >= 1000, "destination class "+dc+" met fewer than 1000 times")
+	}
+	for _, k := range []string{"all-zero-chunk-over-nonzero-destination-bytes", "chunk-equal-to-previous-chunk", "zero-run-across-a-chunk-boundary-unaligned", "all-zero-short-last-chunk", "chunk-already-present-at-destination"} {
+		R.Require(c.existing["in-geometry/"+k] >= 500, "situation '"+k+"' occurred fewer than 500 times in the deliveries over a pre-existing destination")
+	}
 	for _, o := range []string{"sender_tiling_all_indices", "sidecar_direct", "legacy-send", "legacy-recv_roundtrip", "mux-recv_wire_total", "mux-recv_delivery", "muxlegacy-recv_wire_total"} {
 		R.Require(c.obs[o] >= len(small), fmt.Sprintf("observer %s made %d observations, fewer than the %d pairs of the small domain", o, c.obs[o], len(small)))
 	}
